@@ -1304,6 +1304,24 @@ pub fn run(ctx: &Ctx) -> i32 {
                     }
                 }
             }
+            // the edges of the index type: "all indices" includes them, and index arithmetic overflows there first
+            let edges = [isize::MAX, isize::MAX - 1, isize::MIN, isize::MIN + 1];
+            for n in edges {
+                pa.add(1, 0);
+                if let Some(Some(f)) = check_op(src, len, Op::Drop(n)) {
+                    report(f);
+                }
+            }
+            for l in [0isize, 1, -1, isize::MAX] {
+                for r in edges.iter().copied().chain([0isize, -1]) {
+                    if let Some(res) = check_op(src, len, Op::Slice(l, r)) {
+                        pa.add(1, 0);
+                        if let Some(f) = res {
+                            report(f);
+                        }
+                    }
+                }
+            }
             if matches!(src, Src::CompRel | Src::CompAbs) {
                 pa.add(4, if len >= 2 { 4 } else { 0 });
                 for f in check_path_helpers(src, len) {
@@ -1313,7 +1331,7 @@ pub fn run(ctx: &Ctx) -> i32 {
         }
     }
     bounds.push(format!(
-        "(a) drop/slice: lengths 0..={} x n / (left,right) in -{}..={} x 4 iterator kinds; slice pairs with left < -len skipped ({} pairs)",
+        "(a) drop/slice: lengths 0..={} x n / (left,right) in -{}..={} plus the edges of isize (MAX, MAX-1, MIN, MIN+1) x 4 iterator kinds; slice pairs with left < -len skipped ({} pairs)",
         max_len, ix, ix, skipped_precondition
     ));
     for (src, len, op) in [(Src::VecInto, 4usize, Op::Slice(1, -2)), (Src::CompAbs, 3, Op::Drop(-1)), (Src::SliceIter, 2, Op::Slice(0, 0)), (Src::CompRel, 5, Op::Slice(-3, 9))] {
